@@ -79,6 +79,10 @@ type writer struct {
 	toks []tok
 	f    feats
 	ctr  int
+	// comment runs (space "runs"): gap index -> number of consecutive comments put into that gap
+	// (gap i lies before token i, gap len(toks) after the last token); runAll applies to every gap.
+	runs   map[int]int
+	runAll int
 }
 
 var hexU, hexL = "0123456789ABCDEF", "0123456789abcdef"
@@ -290,7 +294,8 @@ func (w *writer) render() []byte {
 	p := w.p
 	var out []byte
 	gi := 0
-	gap := func(required, inRef bool) {
+	runMode := w.runs != nil || w.runAll > 0
+	gap := func(idx int, required, inRef bool) {
 		gi++
 		var ws []byte
 		switch p.ws {
@@ -308,6 +313,28 @@ func (w *writer) render() []byte {
 				ws = append(ws, whites[(gi/3)%len(whites)])
 			}
 		}
+		if runMode {
+			r := w.runAll
+			if v, ok := w.runs[idx]; ok {
+				r = v
+			}
+			if r == 0 {
+				out = append(out, ws...)
+				return
+			}
+			if p.ws != "min" {
+				out = append(out, ws...)
+			}
+			for k := 0; k < r; k++ { // each comment ends with its end-of-line marker; the next one follows directly or after the policy's white space
+				out = append(out, '%')
+				out = append(out, cmtTexts[(gi+k)%len(cmtTexts)]...)
+				out = append(out, p.eolBytes()...)
+				if p.ws != "min" && k%2 == 1 {
+					out = append(out, ws...)
+				}
+			}
+			return
+		}
 		if p.cmt == "all" || (p.cmt == "sep" && !inRef) {
 			if p.ws != "min" {
 				out = append(out, ws...)
@@ -324,16 +351,16 @@ func (w *writer) render() []byte {
 	}
 	for i, t := range w.toks {
 		if i == 0 {
-			if p.ws != "min" {
-				gap(false, false)
+			if p.ws != "min" || runMode {
+				gap(0, false, false)
 			}
 		} else {
-			gap(w.toks[i-1].eReg && t.sReg, t.inRef)
+			gap(i, w.toks[i-1].eReg && t.sReg, t.inRef)
 		}
 		out = append(out, t.b...)
 	}
-	if p.ws != "min" {
-		gap(false, false)
+	if p.ws != "min" || runMode {
+		gap(len(w.toks), false, false)
 	}
 	return out
 }
